@@ -11,15 +11,14 @@ and reads `goto-instrument --show-symbol-table --json-ui`.  A symbol is REPORTED
   * its type is not const-qualified (arrays: element type; structs: the tag type).
 Every reported symbol is then looked up in `--show-goto-functions`: if no instruction outside
 __CPROVER_initialize assigns it (directly, through a member or an index), it is classified
-`never-assigned` (writable only in the sense of the linker section; e.g. a `static const char *p`),
-otherwise `WRITTEN`.
+`never-assigned` (writable only in the sense of the linker section; e.g. a `static const char *p`);
+if some library function takes its address it is `ADDRESS-TAKEN` (may be written through the pointer:
+a `static` scratch array filled by memcpy), if it is assigned directly `WRITTEN`.
 
-exit 0: no static-lifetime object of the library is ever written      (fact holds)
-exit 1: at least one is written by library code                       (mutable global state: C20 violated)
+exit 0: no static-lifetime object of the library is written or address-taken by library code   (fact holds)
+exit 1: at least one is                                                (mutable global state: C20 violated)
 exit 2: tool failure
-This is a syntactic fact about the goto program, not a proof obligation: writes through a pointer
-to the object are not traced (none of the reported objects has its address taken in this tree; the
-script prints address-taken symbols so that a reviewer sees when this stops being true).  The
+This is a syntactic fact about the goto program, not a proof obligation.  The
 deciding C20 units are the CBMC units (results proved for arbitrary initial static state)."""
 import argparse, json, os, re, subprocess, sys, tempfile
 
@@ -113,13 +112,14 @@ def main():
         for x in reported:
             x["written_by"] = sorted(set(writes[x["name"]]))
             x["address_taken_in"] = sorted(set(addr[x["name"]]))
-            x["class"] = "WRITTEN" if x["written_by"] else "never-assigned"
-            bad += bool(x["written_by"])
+            # an address-taken non-const static can be written through the pointer (memcpy, get_b32, ...): counted as mutable
+            x["class"] = "WRITTEN" if x["written_by"] else ("ADDRESS-TAKEN" if x["address_taken_in"] else "never-assigned")
+            bad += bool(x["written_by"] or x["address_taken_in"])
         out = {"repo": repo, "cfg": a.cfg, "static_lifetime_objects_in_library": statics,
                "non_const": reported, "written": bad, "fact_holds": bad == 0}
         if a.json:
             json.dump(out, open(a.json, "w"), indent=1)
-        print("static_facts: %d static-lifetime objects declared under %s/{src,include}; %d not const-qualified; %d written by library code"
+        print("static_facts: %d static-lifetime objects declared under %s/{src,include}; %d not const-qualified; %d written or address-taken by library code"
               % (statics, repo, len(reported), bad))
         for x in reported:
             print("  %-14s %s  (%s:%s %s)%s%s" % (x["class"], x["name"], x["file"], x["line"], x["type"],
